@@ -134,27 +134,41 @@ def compare_var(var_lookup, vid, value, limits, path, depth, budget_hit=False, s
     expected = kids
     if type(value) in (list, tuple) or issubclass(type(value), Exception):
         expected = kids[:limits.max_collection_size]
-    by_name = {}
-    for c in got:
-        if c.name in by_name:
-            raise Mismatch('duplicate-child-name', path + [str(c.name)])
-        by_name[c.name] = c
-    used = set()
+    match_children(got, expected, path, budget_hit or depth >= limits.max_var_depth,
+                   lambda c, child, sn: compare_var(var_lookup, c.vid, child, limits, path + [str(c.name)], depth + 1,
+                                                    budget_hit, sn), seen)
+
+
+def match_children(got, expected, path, missing_ok, compare_child, seen):
+    """Pair the reported children with the expected (accepted names, value) entries.  Names need not be unique: two
+    dict keys with the same text (1 and '1') are two children of that name, each a true reading of one of the entries."""
+    pool = list(got)
+    accepted = set()
     for names, child in expected:
-        c = None
-        for nm in names:
-            if nm in by_name:
-                c = by_name[nm]
-                used.add(nm)
-                break
-        if c is None:
-            if budget_hit or depth >= limits.max_var_depth:
+        accepted |= set(names)
+        cands = [c for c in pool if c.name in names]
+        if not cands:
+            if missing_ok:
                 continue
             raise Mismatch('missing-child', path + [sorted(map(str, names))[0]])
-        compare_var(var_lookup, c.vid, child, limits, path + [str(c.name)], depth + 1, budget_hit, seen)
-    extra = [n for n in by_name if n not in used]
-    if extra:
-        raise Mismatch('invented-child', path + [str(extra[0])])
+        if len(cands) == 1:
+            compare_child(cands[0], child, seen)
+            pool.remove(cands[0])
+            continue
+        last = None
+        for c in cands:
+            try:
+                compare_child(c, child, dict(seen) if isinstance(seen, dict) else set(seen))
+                pool.remove(c)
+                last = None
+                break
+            except Mismatch as m:
+                last = m
+        if last is not None:
+            raise last
+    if pool:
+        c = pool[0]
+        raise Mismatch('duplicate-child-name' if c.name in accepted else 'invented-child', path + [str(c.name)])
 
 
 def app_frame_reference(filename, includes, excludes, app_root):
